@@ -30,7 +30,8 @@ def parse_patch(text):
         elif line.startswith("--- "):
             continue
         elif line.startswith("@@") and cur is not None:
-            hunk = ([], [])
+            m = re.match(r"@@ -(\d+)", line)
+            hunk = ([], [], int(m.group(1)) if m else 0)
             files[cur].append(hunk)
         elif hunk is not None and cur is not None:
             if line.startswith("+"):
@@ -56,14 +57,16 @@ def apply_patch(src, text):
         except Exception:  # noqa: BLE001
             return None
         lines = cur.split("\n")
-        for old, new in hunks:
-            # strip trailing empty context artefacts
+        shift = 0
+        for old, new, start in hunks:
             n = len(old)
             hits = [i for i in range(len(lines) - n + 1) if lines[i:i + n] == old]
-            if len(hits) != 1:
+            if not hits:
                 return None
-            i = hits[0]
+            # several identical contexts (duplicated branches): the one nearest to the position the hunk header names
+            i = min(hits, key=lambda h: abs(h - (start - 1 + shift)))
             lines[i:i + n] = new
+            shift += len(new) - n
         overlay[rel] = "\n".join(lines)
     return overlay
 
